@@ -48,6 +48,11 @@ Proof. intros. eapply buffer_below_window; try eassumption; apply reach_inv; ass
 Theorem C43_chunked_registration_refuted : exists ops, l_maxemit (lrun false ops) > l_maxreq (lrun false ops).
 Proof. exact chunked_refuted. Qed.
 
+(* The same defect through the consumer-death path: registration repaired, handleTerminated still setting
+   demandUpTo := currentSeq (corpus/C43/02-*.json replays the witness on the real controllers). *)
+Theorem C43_chunked_terminated_refuted : exists ops, l_maxemit (lrun2 true false ops) > l_maxreq (lrun2 true false ops).
+Proof. exact chunked_terminated_refuted. Qed.
+
 (* With the registration rule demandUpTo := min(demandUpTo, currentSeq) (fixes/C43-registration-demand.diff) the
    demand and everything emitted stay within the highest request, for every schedule and every chunk count. *)
 Theorem C43_chunked_registration_partial : forall ops,
@@ -59,3 +64,4 @@ Print Assumptions C43_emitted_within_demand.
 Print Assumptions C43_buffer_within_window.
 Print Assumptions C43_chunked_registration_refuted.
 Print Assumptions C43_chunked_registration_partial.
+Print Assumptions C43_chunked_terminated_refuted.
